@@ -44,6 +44,11 @@ def main():
         res["demo_clean_rc"] = rc
         res["demo_clean_tail"] = out[-600:]
         rc, out = sh("git apply %s" % os.path.join(seed, "patch.diff"), cwd=wt)
+        if rc != 0:
+            # HEAD moved since the seed was written (fix / hook commits): retry with fuzz
+            rc, out2 = sh("patch -p1 -F3 --no-backup-if-mismatch < %s" % os.path.join(seed, "patch.diff"), cwd=wt)
+            out += out2
+            res["applied_with_fuzz"] = (rc == 0)
         res["apply_rc"] = rc
         if rc != 0:
             res["apply_out"] = out[-800:]
